@@ -119,9 +119,9 @@ class AbstractAst:
             raise RTAMTException('STL specification if empty')
 
         #TODO How to handle sub-formulas?
-        entire_spec = self.modular_spec + self.spec
+        entire_spec = (self.modular_spec + self.spec).rstrip()
         
-        if entire_spec[-1] != ';':
+        if not entire_spec.endswith(';'):
             entire_spec += ';'
         
         input_stream = InputStream(entire_spec)
